@@ -110,9 +110,9 @@ func (c InterCmd) run(tx sqlx.Tx) ([]SetItem, error) {
 	}
 	query, keyArgs := sqlx.ExpandIn(query, ":keys", c.keys)
 	args := append(
-		keyArgs,                // keys
-		time.Now().UnixMilli(), // now
-		len(c.keys),            // nkeys
+		keyArgs,                    // keys
+		time.Now().UnixMilli(),     // now
+		sqlx.CountDistinct(c.keys), // nkeys
 	)
 
 	// Execute the query.
@@ -166,7 +166,7 @@ func (c InterCmd) store(tx sqlx.Tx) (int, error) {
 		query = strings.Replace(query, sqlx.Sum, c.aggregate, 2)
 	}
 	query, keyArgs := sqlx.ExpandIn(query, ":keys", c.keys)
-	args := slices.Concat([]any{destID}, keyArgs, []any{now, len(c.keys)})
+	args := slices.Concat([]any{destID}, keyArgs, []any{now, sqlx.CountDistinct(c.keys)})
 	res, err := tx.Exec(query, args...)
 	if err != nil {
 		return 0, err
